@@ -191,6 +191,64 @@ def cache_flow(ctx: Ctx) -> RuleResult:
     return r
 
 
+def cache_entry(ctx: Ctx) -> RuleResult:
+    """Every entry point of an executor that starts the scheduler consults the cache file.
+
+    The file is read in one function (the loader of CACHE-FLOW). An executor method that reaches the scheduler without reaching
+    the loader executes, for an executor created with from_cache, nodes whose results are in the file."""
+    r = RuleResult("CACHE-ENTRY")
+    hits = _loader(ctx)
+    r.require(len(hits) == 1, f"pickle.load sites: {len(hits)}")
+    lf, _ = hits[0]
+    r.require(lf.cls is not None, "the cache file is not read by a method of the executor")
+    base = lf.cls.qualname
+    execs = [c for q, c in ctx.P.classes.items() if q == base or ctx.P.is_subclass(q, base)]
+    # functions that reach the scheduler / the loader (fix-point over resolved calls)
+    callees = {f.qualname: {q for _, q in ctx.calls_in(f) if q in ctx.P.funcs} for f in ctx.funcs()}
+    # a method called on `self.dag` resolves to the declared class; the twins override it: add overriding methods
+    for f in ctx.funcs():
+        extra = set()
+        for q in callees[f.qualname]:
+            g = ctx.P.funcs[q]
+            if g.cls is not None:
+                for cq, c in ctx.P.classes.items():
+                    if ctx.P.is_subclass(cq, g.cls.qualname) and g.name in c.methods:
+                        extra.add(c.methods[g.name].qualname)
+        callees[f.qualname] |= extra
+
+    def closure(seed: set) -> set:
+        out = set(seed)
+        changed = True
+        while changed:
+            changed = False
+            for q, cs in callees.items():
+                if q not in out and cs & out:
+                    out.add(q)
+                    changed = True
+        return out
+
+    sched = {f.qualname for f in ctx.funcs() if f.cls is None and f.name in ("sync_execute", "async_execute")}
+    r.require(len(sched) >= 1, "scheduler entry functions not found")
+    to_sched = closure(sched)
+    to_loader = closure({lf.qualname})
+    n = 0
+    for c in execs:
+        for name, m in sorted(c.methods.items()):
+            if name.startswith("_") and not (name.startswith("__") and name.endswith("__")):
+                continue
+            if m.qualname not in to_sched:
+                continue
+            n += 1
+            ok = m.qualname in to_loader
+            r.ob(ok, {"executor entry point": m.short, "reaches the scheduler": True, "consults the cache file": ok})
+            if not ok:
+                r.violate(f"{m.short}: starts the scheduler without consulting from_cache", m.loc(),
+                          "on an executor created with from_cache this entry point executes nodes whose results are in the file "
+                          f"(the file is read only by {lf.short})", None)
+    r.require(n >= 2, f"executor entry points that reach the scheduler: {n} found, at least 2 expected")
+    return r
+
+
 def _display_merge(f: FuncInfo, var: str) -> Optional[dict]:
     """X = [StrictDict|dict]({**A, **B}) or A | B where one operand is the loaded mapping: {'target', 'cached_last', 'node'}."""
     for n in iter_own_nodes(f.node):
@@ -394,4 +452,4 @@ def cache_excl(ctx: Ctx) -> RuleResult:
     return r
 
 
-RULES = {"CACHE-FLOW": cache_flow, "CACHE-PRIORITY": cache_priority, "CACHE-SHAPE": cache_shape, "CACHE-EXCL": cache_excl}
+RULES = {"CACHE-ENTRY": cache_entry, "CACHE-FLOW": cache_flow, "CACHE-PRIORITY": cache_priority, "CACHE-SHAPE": cache_shape, "CACHE-EXCL": cache_excl}
